@@ -23,6 +23,8 @@ def scan_trace(path):
         n += 1
         op = e["op"]
         st["op:" + op] += 1
+        if op == "crashed" or e.get("light"):
+            continue
         ws = e["obs"]["ws"]
         shape = tuple(tuple(sorted("".join(sorted(c.keys())) for c in w["ents"].values())) if w.get("live") else None for w in ws)
         args = (op, e.get("w"), tuple(e.get("order", [])), len(e.get("rows", [])), e.get("c"), e.get("mode"), e.get("enc"), e.get("variant"), e.get("q"))
@@ -58,7 +60,11 @@ def extract_replay(trace, line, out):
     ops = []
     for i, l in enumerate(open(trace), 1):
         e = json.loads(l)
-        op = {k: v for k, v in e.items() if k not in ("obs", "led", "res", "panic", "id", "panicmsg")}
+        if e["op"] == "crashed":
+            if e.get("args") and not (ops and ops[-1] == e["args"]):
+                ops.append(e["args"])
+            break
+        op = {k: v for k, v in e.items() if k not in ("obs", "led", "res", "panic", "id", "panicmsg", "light")}
         if e["op"] == "panicked":
             op["op"] = e["was"]
             op.pop("was", None)
@@ -73,6 +79,51 @@ def extract_replay(trace, line, out):
         for o in ops:
             f.write(json.dumps(o) + "\n")
     return out
+
+def crash_recover(trace, rc):
+    """The driver process died inside a library call (abort / segfault).  That is data: keep the
+    complete lines, re-run the same prefix with the crashing op observed structurally only (dumps),
+    and append a final `crashed` event."""
+    lines = []
+    for l in open(trace, errors="replace"):
+        if l.endswith("\n"):
+            try:
+                json.loads(l)
+                lines.append(l)
+            except Exception:
+                break
+    cur = None
+    try:
+        cur = json.load(open(trace + ".cur"))
+    except Exception:
+        pass
+    ops = []
+    for l in lines:
+        e = json.loads(l)
+        ops.append({k: v for k, v in e.items() if k not in ("obs", "led", "res", "panic", "id", "panicmsg")})
+    light = None
+    if cur is not None:
+        script = trace + ".prefix"
+        with open(script, "w") as f:
+            for o in ops + [cur]:
+                f.write(json.dumps(o) + "\n")
+        p = sh([bin_path("worlddrv"), "script", script, trace + ".light", "--light-last"], timeout=1200, check=False)
+        if p.returncode == 0:
+            ll = open(trace + ".light").read().splitlines()
+            if len(ll) == len(ops) + 1:
+                light = ll[-1]
+        for x in (script, trace + ".light", trace + ".light.cur"):
+            try:
+                os.remove(x)
+            except OSError:
+                pass
+    with open(trace, "w") as f:
+        for l in lines:
+            f.write(l)
+        if light:
+            f.write(light + "\n")
+        f.write(json.dumps({"op": "crashed", "was": (cur or {}).get("op", "?"), "rc": rc,
+                            "args": cur, "w": (cur or {}).get("w", 1)}) + "\n")
 
 def run_world(tier, seed, scripts_only=None):
     """Returns the cached-or-fresh result dict of the world pipeline."""
@@ -104,9 +155,13 @@ def run_world(tier, seed, scripts_only=None):
     def one(job):
         kind, arg, out = job
         if kind == "random":
-            sh([bin_path("worlddrv"), "random", str(arg[0]), str(arg[1]), str(arg[2]), out], timeout=1200)
+            p = sh([bin_path("worlddrv"), "random", str(arg[0]), str(arg[1]), str(arg[2]), out], timeout=1200, check=False)
         else:
-            sh([bin_path("worlddrv"), "script", arg, out], timeout=1200)
+            p = sh([bin_path("worlddrv"), "script", arg, out], timeout=1200, check=False)
+        if p.returncode == 2:
+            raise ToolError("worlddrv harness error: " + p.stdout[-2000:])
+        if p.returncode != 0:
+            crash_recover(out, p.returncode)
         res = tlc_trace("TraceWorld.tla", "TraceWorld.cfg", out, out + ".meta")
         st, sigs, sample = scan_trace(out)
         return {"trace": out, "fails": res["fails"], "stats": st, "sigs": sigs, "sample": sample,
@@ -126,11 +181,17 @@ def run_world(tier, seed, scripts_only=None):
         sigs |= r["sigs"]
         if r["sample"] and len(samples) < 3:
             samples.append(r["sample"])
+        seen = {}
         for (prop, line, name, op) in r["fails"]:
-            rp = os.path.join(WORK, "replay", "%s-%s-%d.ndjson" % (prop, os.path.basename(r["trace"]).replace(".ndjson", ""), line))
-            extract_replay(r["trace"], line, rp)
-            fails.append({"prop": prop, "line": line, "name": name, "op": op,
-                          "trace": r["trace"], "replay": rp})
+            # one replay script per (trace, property): the history up to the first failure
+            if prop not in seen:
+                rp = os.path.join(WORK, "replay", "%s-%s-%d.ndjson" % (prop, os.path.basename(r["trace"]).replace(".ndjson", ""), line))
+                extract_replay(r["trace"], line, rp)
+                seen[prop] = [rp, 0]
+            seen[prop][1] += 1
+            if seen[prop][1] <= 5:
+                fails.append({"prop": prop, "line": line, "name": name, "op": op,
+                              "trace": r["trace"], "replay": seen[prop][0]})
     out = {"tier": tier, "seed": seed, "traces": len(results), "stats": dict(stats),
            "distinct": len(sigs), "fails": fails, "samples": samples, "wall": time.time() - t0,
            "dir": d}
